@@ -147,18 +147,21 @@ impl Plan {
     fn io_of(&self, j: usize) -> IoPlan {
         self.io.get(j).cloned().unwrap_or_default()
     }
+    /// template tag of the method a (possibly damaged) reference points at: exact match, else the closest unique one
     fn kind_of(&self, r: &MRef) -> String {
         let tag = |m: &MethodSpec| if m.kind.is_empty() { "filler".to_string() } else { m.kind.clone() };
-        for c in &self.main.classes {
-            if c.name == r.0 {
-                if let Some(m) = c.methods.iter().find(|m| m.name == r.1 && m.desc == r.2) {
-                    return tag(m);
-                }
-                // a damaged descriptor: the only method of that name
-                let same: Vec<&MethodSpec> = c.methods.iter().filter(|m| m.name == r.1).collect();
-                if same.len() == 1 {
-                    return tag(same[0]);
-                }
+        let all: Vec<(&ClassSpec, &MethodSpec)> = self.main.classes.iter().flat_map(|c| c.methods.iter().map(move |m| (c, m))).collect();
+        let tries: [&dyn Fn(&(&ClassSpec, &MethodSpec)) -> bool; 5] = [
+            &|(c, m)| c.name == r.0 && m.name == r.1 && m.desc == r.2,
+            &|(c, m)| c.name == r.0 && m.name == r.1,
+            &|(c, m)| c.name == r.0 && m.name == r.1 && !m.kind.is_empty(),
+            &|(_, m)| m.name == r.1 && m.desc == r.2,
+            &|(_, m)| m.name == r.1 && !m.kind.is_empty(),
+        ];
+        for t in tries {
+            let hit: Vec<&(&ClassSpec, &MethodSpec)> = all.iter().filter(|x| t(x)).collect();
+            if hit.len() == 1 {
+                return tag(hit[0].1);
             }
         }
         "?".into()
@@ -592,9 +595,10 @@ fn hierarchy_risk(jars: &[Vec<u8>]) -> Option<&'static str> {
         for (name, data) in entries {
             if let EntryData::File(b) = data {
                 if name.ends_with(".class") {
-                    match header_of(&b) {
-                        Some((this, sup)) => g.entry(this).or_default().extend(sup),
-                        None => return Some("unreadable-header"),
+                    // a header this walker cannot read (bad magic, unknown pool tag, dangling index, truncation) cannot be
+                    // read by the code under test either (its pool reader is eager and at least as strict): no edges
+                    if let Some((this, sup)) = header_of(&b) {
+                        g.entry(this).or_default().extend(sup);
                     }
                 }
             }
@@ -673,6 +677,14 @@ fn child_main(p: &Plan, op: &str) -> ! {
     let ios: Vec<IoPlan> = (0..n).map(|j| p.io_of(j)).collect();
     let qcal: QCal = retag(to_quill::<2>(&p.calamus, order(p.order_cal).as_mut()).expect("calamus admissible for quill"));
     let qmap: QMap = retag(to_quill::<2>(&p.mappings, order(p.order_map).as_mut()).expect("mappings admissible for quill"));
+    if op == "dump" {
+        // debugging aid: the delivered archives of the plan
+        for (j, b) in damaged.iter().enumerate() {
+            let d = SimJar::new(b.clone(), &ios[j]).delivered();
+            let _ = std::fs::write(std::env::temp_dir().join(format!("c15-dump-{j}.jar")), d);
+        }
+        std::process::exit(0)
+    }
     let main = SimJar::new(damaged[0].clone(), &ios[0]);
     let libs: Vec<SimJar> = damaged[1..].iter().zip(ios[1..].iter()).map(|(b, io)| SimJar::new(b.clone(), io)).collect();
     let r = if op == "detect" { no_panic(|| real_pairs(&main).is_ok()) } else { no_panic(|| real_add(&main, &libs, &qcal, &qmap).is_ok()) };
@@ -832,7 +844,7 @@ impl Engine for C15 {
     fn runs(&self, tier: Tier) -> u64 {
         match tier {
             Tier::Quick => 20_000,
-            Tier::Thorough => 400_000,
+            Tier::Thorough => 2_000_000,
         }
     }
 
@@ -1031,7 +1043,7 @@ impl Engine for C15 {
                 let delivered: Vec<Vec<u8>> = (0..n).map(|j| SimJar::new(damaged[j].clone(), &ios[j]).delivered()).collect();
                 if let Some(why) = hierarchy_risk(&delivered) {
                     // the code under test recurses over super types: not in this process
-                    st.probe(if why == "cyclic-hierarchy" { "t2.child.cyclic_hierarchy" } else { "t2.child.unreadable_header" });
+                    st.probe("t2.child.cyclic_hierarchy");
                     for op in ["detect", "add"] {
                         match run_child(p, op) {
                             None => st.probe("t2.child.returned"),
@@ -1168,7 +1180,7 @@ impl Engine for C15 {
             "if the mapping set has no entry for the bridge's class nothing is written; an existing entry of the delegate keeps comment and parameters, only its names change".into(),
             "quantifier: runs in which two bridges of one class aim at the same delegate key are not evaluated (probe inadmissible.*); calamus is injective on classes; no class is defined twice; hierarchies are acyclic".into(),
             "under faults: Err is accepted; Ok is compared with the reference over the classes the delivered archives contain (zip crate as trusted reader); a delivered class the reference parser rejects while the real code answers Ok is counted (lenient_accept), not flagged".into(),
-            "a delivered main or library jar whose class headers describe a cyclic hierarchy (possible only after a class-file bit flip), or whose headers a 60-line pool walker cannot read, is not executed in the harness process: both operations run in a child process (`sh -c 'ulimit -v 150000; ulimit -t 20; exec sim C15 --replay <plan>'`, C15_CHILD=detect|add); only 'returned' vs. stack overflow / allocation failure / CPU limit / panic is judged there, results are not compared".into(),
+            "a delivered main or library jar whose class headers (read by a 60-line constant-pool walker) describe a cyclic hierarchy - possible only after a class-file bit flip - is not executed in the harness process: both operations run in a child process (`sh -c 'ulimit -v 150000; ulimit -t 20; exec sim C15 --replay <plan>'`, C15_CHILD=detect|add); only 'returned' vs. stack overflow / allocation failure / CPU limit / panic is judged there, results are not compared".into(),
             "harness profile: opt-level 2 with overflow checks and debug assertions".into(),
         ]
     }
@@ -1187,7 +1199,7 @@ impl Engine for C15 {
             "bridge.flagged", "bridge.unflagged", "bridge.in_interface", "bridge.interface_parent",
             "name.own", "name.inherited1", "name.inherited2+", "name.unnamed", "name.cut_by_unnamed_class", "name.via_library_only_super", "super.missing", "super.library_only",
             "delegate.already_named", "delegate.new_entry", "delegate.other_class", "bridge.class_absent",
-            "ref.adopted_unknown", "io.short_transfers", "io.eintr", "lenient_accept", "t2.ok_compared", "t2.ok_with_class_damage", "t2.add_err", "t2.damage_in_skipped_attr", "t2.damage_in_lib_body", "t2.damage_in_super_type_index", "t2.child.cyclic_hierarchy", "t2.child.unreadable_header", "t2.child.returned", "heal.ok",
+            "ref.adopted_unknown", "io.short_transfers", "io.eintr", "lenient_accept", "t2.ok_compared", "t2.ok_with_class_damage", "t2.add_err", "t2.damage_in_skipped_attr", "t2.damage_in_lib_body", "t2.damage_in_super_type_index", "t2.child.cyclic_hierarchy", "t2.child.returned", "heal.ok",
         ]
     }
 }
